@@ -135,11 +135,11 @@ const (
 	MaxHandshake  = 8192
 	MarkLen       = 16
 	MacLen        = 16
-	ClientMinHS   = 32 + MarkLen + MacLen        // 64
-	ServerMinHS   = 32 + 32 + MarkLen + MacLen   // 96
-	SeedFrameLen  = 2 + 16 + 3 + 24              // 45
-	ClientMinPad  = ServerMinHS + SeedFrameLen - ClientMinHS // 77
-	ClientMaxPad  = MaxHandshake - ClientMinHS   // 8128
+	ClientMinHS   = 32 + MarkLen + MacLen                       // 64
+	ServerMinHS   = 32 + 32 + MarkLen + MacLen                  // 96
+	SeedFrameLen  = 2 + 16 + 3 + 24                             // 45
+	ClientMinPad  = ServerMinHS + SeedFrameLen - ClientMinHS    // 77
+	ClientMaxPad  = MaxHandshake - ClientMinHS                  // 8128
 	ServerMaxPad  = MaxHandshake - (ServerMinHS + SeedFrameLen) // 8051
 	MaxSegment    = 1448
 	FrameOverhead = 2 + 16
